@@ -141,7 +141,26 @@ func (c *coord) coversActive(v *ssa.Function, activeT types.Type) (bool, string)
 			}
 			n++
 			if !fi.MustPass(nx, pb.Instrs[len(pb.Instrs)-1], isUpd) {
-				all = false
+				// the iteration may be ended early under a flag that is only set where an entry was stored
+				okFlag := false
+				sites := c.decisionSites(pb.Instrs[len(pb.Instrs)-1])
+				if iff, isIf := pb.Instrs[len(pb.Instrs)-1].(*ssa.If); isIf && pb.Succs[0] == hdr {
+					// "if found { continue }": the back edge is the true edge of a test of the flag
+					if ph, isPhi := iff.Cond.(*ssa.Phi); isPhi {
+						sites = phiTrueSites(fi, ph)
+					}
+				}
+				if len(sites) > 0 && sites[0].blk != pb {
+					okFlag = true
+					for _, st := range sites {
+						if !fi.MustPass(nx, st.blk.Instrs[len(st.blk.Instrs)-1], isUpd) {
+							okFlag = false
+						}
+					}
+				}
+				if !okFlag {
+					all = false
+				}
 			}
 		}
 		if n > 0 && all {
